@@ -11,7 +11,7 @@ ENGINES = [
                         "step all datagrams at all endpoints and the projected tables of all clients are compared with the spec's expected outputs and target state"),
 ]
 
-ENGINES.append(dict(name="engine-B-trace", path="/verif/harness (TestClientConnTrace, TestKeepAliveTrace) + /verif/spec/Trace*.tla", serves_properties=["C13", "C14"],
+ENGINES.append(dict(name="engine-B-trace", path="/verif/harness (TestClientConnTrace, TestKeepAliveTrace) + /verif/spec/Trace*.tla", serves_properties=["C05", "C13", "C14"],
                     kind_free_text="code -> spec: seeded random drivers that are not derived from the spec run the real client (and server) in virtual time and record one ndjson event per observable step; "
                                    "TLC replays the events through the specification's actions (trace specification, POSTCONDITION on the high-water mark) and evaluates the invariants at every step"))
 
